@@ -209,7 +209,7 @@ def model_error(r, X):
 # ====================================================================================================
 # judging a Gram matrix
 # ====================================================================================================
-def judge_gram(ctx: Ctx, Kd, e, classes, nontrivial):
+def judge_gram(ctx: Ctx, Kd, e, classes, nontrivial, search=False):
     """Kd: dense (N, N) float64 Gram matrix as returned by the library; e: modelled relative entry error"""
     N = Kd.shape[-1]
     if not ctx.check("gram.finite", bool(torch.isfinite(Kd).all()), f"non-finite entries in K(x,x): {Kd.reshape(-1)[:6].tolist()}"):
@@ -223,7 +223,10 @@ def judge_gram(ctx: Ctx, Kd, e, classes, nontrivial):
     tau = 100 * N * (EPS + e)
     ratio = (-lmin / lmax) if lmax > 0 else (0.0 if lmin >= 0 else math.inf)
     ctx.check("gram.psd", lmin >= -tau * max(lmax, 0.0), f"lambda_min = {lmin:.6e}, lambda_max = {lmax:.6e}: -lmin/lmax = {ratio:.3e} > tau = {tau:.3e} (N = {N}, e = {e:.2e})")
-    _target(max(min(ratio, 1.0), -1.0), "neg_lambda_min_over_lambda_max")
+    if search:
+        # only the gram.search.* sub-checks steer Hypothesis: its hill-climbing phase spends about half of the budget on
+        # variations of the current worst case, which would empty the class histogram of the coverage sub-checks
+        _target(max(min(ratio, 1.0), -1.0), "-lambda_min/lambda_max")
     ctx.notes["c07"] = {"classes": list(classes), "ratio": ratio, "tau": tau, "asym": asym / scale if scale > 0 else 0.0, "e": e}
     ctx.set_nontrivial(nontrivial)
 
@@ -288,7 +291,7 @@ def run_gram_basic(case, ctx: Ctx):
             grad = x.grad
     dups, near = geometry(X)
     classes = _tree_classes(r)
-    judge_gram(ctx, Kd, e, classes, dups + near > 0 or recipe_extreme(r))
+    judge_gram(ctx, Kd, e, classes, dups + near > 0 or recipe_extreme(r), case.get("search", False))
     if grad is not None:
         # a covariance that is differentiated w.r.t. its inputs (as in acquisition optimisation) must not produce NaN on
         # coincident rows: `dist` guards sqrt(0) with clamp_min(1e-30)
@@ -458,7 +461,7 @@ def run_gram_special(case, ctx: Ctx):
         dups, near = case["n"] - len(set(case["idx"])), 0
     else:
         dups, near = geometry(x)
-    judge_gram(ctx, Kd, e, [name], dups + near > 0 or special_extreme(case))
+    judge_gram(ctx, Kd, e, [name], dups + near > 0 or special_extreme(case), case.get("search", False))
     ctx.label(f"class={name}", f"dups={min(dups, 3)}", f"near={min(near, 3)}", f"extreme={special_extreme(case)}",
               *([f"class={name}[{sub['k']}]"] if sub else []))
 
@@ -507,7 +510,7 @@ def run_gram_deriv(case, ctx: Ctx):
     ctx.check("gram.shape", tuple(Kd.shape) == (case["n"] * per,) * 2, f"shape {tuple(Kd.shape)}, expected {(case['n'] * per,) * 2}", kind="shape")
     dups, near = geometry(X)
     ext = extreme(_flat(case["lengthscale"])) if "lengthscale" in case else False
-    judge_gram(ctx, Kd, e, [name], dups + near > 0 or ext)
+    judge_gram(ctx, Kd, e, [name], dups + near > 0 or ext, case.get("search", False))
     ctx.label(f"class={name}", f"dups={min(dups, 3)}", f"near={min(near, 3)}", f"extreme={ext}", f"d={d}")
 
 
@@ -776,13 +779,16 @@ def variance_case(draw):
         return case
     if kind == "exact":
         d = draw(st.integers(1, 2))
-        n = draw(st.integers(2, 6))
-        case.update(d=d, n=n, X=draw(VM.inducing(n, d)), y=draw(kern.arr([n], kern.REAL)),
-                    kernel=draw(VM.svgp_kernel(d, [], names=["RBF", "Matern2.5", "Matern1.5", "RQ"], ls=(0.5, 3.0))),
+        n = draw(st.integers(2, 8))
+        # lattice inputs (repeated rows allowed) and lengthscales of 1 ... 5: a nearly singular K with tiny noise
+        case.update(d=d, n=n, X=draw(kern.arr([n, d], st.sampled_from([-2.0, -1.5, -1.0, -0.5, 0.0, 0.5, 1.0, 1.5, 2.0]))), y=draw(kern.arr([n], kern.REAL)),
+                    kernel=draw(VM.svgp_kernel(d, [], names=["RBF", "Matern2.5", "Matern1.5", "RQ"], ls=(1.0, 5.0))),
                     # noise 1e-6 at the training points: the raw posterior variance there is ~ noise +- kappa * eps
-                    noise=draw(st.sampled_from([1e-6, 1e-6, 1e-8, 1e-5] if dtype == "float64" else [1e-3, 1e-4, 1e-2])),
+                    # (measured on the unchanged tree: the Cholesky path keeps these variances positive, the CG path at its default
+                    # tolerance returns slightly negative ones in 10-70 % of such cases)
+                    noise=draw(st.sampled_from([1e-6, 1e-6, 1e-8, 1e-10, 1e-5] if dtype == "float64" else [1e-3, 1e-4, 1e-5, 1e-6])),
                     at=draw(st.lists(st.integers(0, n - 1), min_size=1, max_size=4)), off=draw(st.sampled_from([0.0, 0.0, 1e-9, 1e-6])),
-                    fpv=draw(st.booleans()))
+                    fpv=draw(st.booleans()), max_chol=draw(st.sampled_from([800, 0, 0])), torch_seed=draw(st.integers(0, 2**31 - 1)))
         return case
     d = draw(st.integers(1, 2))
     M = draw(st.integers(1, 4))
@@ -796,7 +802,7 @@ def variance_case(draw):
 def run_variance(case, ctx: Ctx):
     kind, dtn, block = case["kind"], case["dtype"], case["block"]
     dt = DT[dtn]
-    ctx.cls = f"{kind}|{dtn}|{'block' if block else 'default'}" + (f"|{case['rep']}" if "rep" in case else "")
+    ctx.cls = f"{kind}|{dtn}|{'block' if block else 'default'}" + (f"|{case['rep']}" if "rep" in case else "") + (f"|chol{case['max_chol']}" if "max_chol" in case else "")
     floor = expected_floor(block, dtn, MINVAR_DEFAULT)
     obs = {}
     with ctx.observing("inside_block"):
@@ -831,7 +837,7 @@ def run_variance(case, ctx: Ctx):
             elif kind == "exact":
                 X = T(case["X"], dtype=dt)
                 y = T(case["y"], dtype=dt)
-                lik = gpytorch.likelihoods.GaussianLikelihood(noise_constraint=gpytorch.constraints.GreaterThan(1e-9))
+                lik = gpytorch.likelihoods.GaussianLikelihood(noise_constraint=gpytorch.constraints.GreaterThan(1e-12))
                 lik.noise = T([case["noise"]])
                 model = G.RecipeGP(X, y, lik, gpytorch.means.ZeroMean(), kern.build_kernel(case["kernel"]))
                 model = model.to(dt)
@@ -839,7 +845,8 @@ def run_variance(case, ctx: Ctx):
                 model.eval()
                 lik.eval()
                 Xs = X[case["at"]] + case["off"]
-                with S.fast_pred_var(case["fpv"]):
+                torch.manual_seed(case["torch_seed"])
+                with S.fast_pred_var(case["fpv"]), S.max_cholesky_size(case["max_chol"]):
                     out = model(Xs)
                     raw = out.covariance_matrix.diagonal(dim1=-1, dim2=-2)
                     pred = lik(out)
@@ -860,7 +867,7 @@ def run_variance(case, ctx: Ctx):
                 obs[name] = (dist_.variance, dist_.stddev, raw)
     ctx.equal("min_variance.value_inside", obs["setting"], floor)
     floor_t = torch.tensor(floor, dtype=dt)
-    clamped = False
+    clamped = negative = False
     for name, val in obs.items():
         if name == "setting":
             continue
@@ -872,10 +879,11 @@ def run_variance(case, ctx: Ctx):
         # sqrt is monotone and correctly rounded: stddev >= sqrt(floor) up to one rounding
         ctx.check(f"{name}.stddev.floor", bool((std >= floor_t.sqrt() * (1 - 4 * torch.finfo(dt).eps)).all()), f"min stddev {float(std.min()):.6e} < sqrt({floor:g})")
         clamped = clamped or bool((raw < 10 * floor_t).any())
+        negative = negative or bool((raw < 0).any())
     ctx.equal("min_variance.restored", S.min_variance.value(dt), MINVAR_DEFAULT[dtn])
     ctx.set_nontrivial(clamped)
     ctx.label(f"var.kind={kind}", f"var.dtype={dtn}", f"var.block={'none' if block is None else 'f' + str(int(block['float'] is not None)) + 'd' + str(int(block['double'] is not None))}",
-              f"var.clamped={clamped}", *([f"var.rep={case['rep']}"] if "rep" in case else []))
+              f"var.clamped={clamped}", f"var.raw_negative[{kind}]={negative}", *([f"var.rep={case['rep']}"] if "rep" in case else []))
 
 
 # ====================================================================================================
@@ -1058,11 +1066,21 @@ RULE = ("(a) kernel recipe (50 classes: 18 basic kernels with ARD / active_dims,
         "entry < 10 x floor. (e) noise >= constraint lower bound for raw values over the float range; FixedGaussianNoise >= settings.min_fixed_noise."
         "value(dtype); non-trivial: the bound / clamp is active. distinct = distinct canonical case.")
 
+def searching(strategy):
+    """the same cases, flagged so that the run reports -lambda_min/lambda_max to hypothesis.target"""
+    return strategy.map(lambda c: dict(c, search=True))
+
+
 SUBCHECKS = [
-    Subcheck("gram.basic", run_gram_basic, strategy=lambda: gram_basic_case(False), quick=1800, thorough=60000, min_shard=100),
-    Subcheck("gram.composed", run_gram_basic, strategy=lambda: gram_basic_case(True), quick=700, thorough=25000, min_shard=40),
-    Subcheck("gram.special", run_gram_special, strategy=gram_special_case, quick=1000, thorough=35000, min_shard=60),
-    Subcheck("gram.derivative", run_gram_deriv, strategy=gram_deriv_case, quick=500, thorough=15000, min_shard=30),
+    Subcheck("gram.basic", run_gram_basic, strategy=lambda: gram_basic_case(False), quick=1500, thorough=50000, min_shard=100),
+    Subcheck("gram.composed", run_gram_basic, strategy=lambda: gram_basic_case(True), quick=600, thorough=20000, min_shard=40),
+    Subcheck("gram.special", run_gram_special, strategy=gram_special_case, quick=1000, thorough=30000, min_shard=60),
+    Subcheck("gram.derivative", run_gram_deriv, strategy=gram_deriv_case, quick=400, thorough=12000, min_shard=30),
+    # targeted search for the most negative relative eigenvalue (hypothesis.target), one search per group and shard
+    Subcheck("gram.search.basic", run_gram_basic, strategy=lambda: searching(gram_basic_case(False)), quick=480, thorough=16000, min_shard=120),
+    Subcheck("gram.search.composed", run_gram_basic, strategy=lambda: searching(gram_basic_case(True)), quick=320, thorough=10000, min_shard=80),
+    Subcheck("gram.search.special", run_gram_special, strategy=lambda: searching(gram_special_case()), quick=480, thorough=16000, min_shard=120),
+    Subcheck("gram.search.derivative", run_gram_deriv, strategy=lambda: searching(gram_deriv_case()), quick=240, thorough=8000, min_shard=80),
     Subcheck("exact.covariances", run_exact_cov, strategy=exact_cov_case, quick=700, thorough=20000, min_shard=40),
     Subcheck("variational.covariances", run_var_cov, strategy=var_cov_case, quick=500, thorough=15000, min_shard=30),
     Subcheck("cond.nested", run_nested, strategy=nested_case, quick=400, thorough=12000, min_shard=25),
